@@ -185,7 +185,12 @@ class Fill(CellModifierInput):
         for i in self._axis_range(0):
             for j in self._axis_range(1):
                 for k in self._axis_range(2):
-                    val = next(words)
+                    val = next(words, None)
+                    if val is None:
+                        raise ValueError(
+                            "A universe must be given for every lattice element: "
+                            f"{self._old_numbers.size} are needed. Input: {value.format()}"
+                        )
                     try:
                         val._convert_to_int()
                         assert val.value >= 0
